@@ -25,6 +25,7 @@ type Clause struct {
 type LoopSpec struct {
 	Invariants []Clause
 	Exits      []Clause
+	Backs      []Clause // obligations on every back edge
 	Unfolds    []Clause
 	Unroll     int
 }
@@ -497,6 +498,15 @@ func ParseSpecFile(fset *token.FileSet, f *ast.File) (*SpecFile, error) {
 						return nil, err
 					}
 					ls.Exits = append(ls.Exits, c)
+				case "backedge":
+					// loop k backedge P: P holds whenever an iteration of loop k ends and the next one begins (every
+					// back edge, including `continue`). With entered(j) / reached($f0) this states that no iteration
+					// skips the inner loop j / the call: coverage of the iterated elements.
+					c, err := mkClause(body)
+					if err != nil {
+						return nil, err
+					}
+					ls.Backs = append(ls.Backs, c)
 				case "unroll":
 					n, err := strconv.Atoi(body)
 					if err != nil {
